@@ -168,9 +168,35 @@ def load_known_findings():
         return json.load(f)
 
 
-def known_signatures(prop):
+def known_findings(prop):
+    """{signature: finding} for one property.  A finding is
+    {property, signature, requires_tables: [...], requires_kw: {...}, what}: it only matches a failing run
+    whose network contains rows in all `requires_tables` (the circumstances the defect needs), so
+    that the same violation class under other circumstances is still reported."""
     kf = load_known_findings()
     return {e["signature"]: e for e in kf.get("findings", []) if e["property"] == prop}
+
+
+def tables_in_trace(trace):
+    from .netmodel import TABLE_OF
+    tabs = set()
+    for op in trace.get("program", {}).get("ops", []):
+        t = TABLE_OF.get(op.get("fn"))
+        if t:
+            tabs.add(t)
+    for nm in trace.get("nets", {}).values() if isinstance(trace.get("nets"), dict) else []:
+        for op in nm.get("ops", []):
+            t = TABLE_OF.get(op.get("fn"))
+            if t:
+                tabs.add(t)
+    return tabs
+
+
+def finding_matches(finding, trace):
+    req = finding.get("requires_tables") or []
+    if req and not set(req) <= tables_in_trace(trace):
+        return False
+    return True
 
 
 # ------------------------------------------------------------------------------------------
